@@ -326,6 +326,61 @@ pub fn run_ir() {
 }
 
 
+/// '201 <ti> <generic> | methods': the forwarding impl that #[cglue_forward] (the REAL cglue_gen::forward::gen_forward) emits for the trait:
+/// row per method [present, calls the same-named method on (self.0), number of forwarded arguments, per argument 0 = passed through unchanged,
+/// argument count matches the signature, 0 = returns the result unchanged, statements outside the known form]; then one row
+/// [the handle must be DerefMut].
+pub fn run_fwd() {
+    let stdin = std::io::stdin();
+    for line in stdin.lock().lines() {
+        let line = line.unwrap();
+        if line.trim().is_empty() { continue; }
+        let (hd, body) = match line.find('|') { Some(i) => (&line[..i], &line[i + 1..]), None => (&line[..], "") };
+        let hdr: Vec<i64> = hd.split_whitespace().map(|t| t.parse().unwrap()).collect();
+        let rows: Vec<Vec<i64>> = body.split(';').map(|r| r.split_whitespace().map(|t| t.parse().unwrap()).collect::<Vec<i64>>()).filter(|r| !r.is_empty()).collect();
+        set_generic(hdr.get(2).copied().unwrap_or(0) != 0);
+        let src = render_trait("Tr", hdr.get(1).copied().unwrap_or(0), &rows);
+        let out = std::panic::catch_unwind(|| {
+            let tr: ItemTrait = { let f = syn::parse_file(&src).expect("rendered trait parses"); match f.items.into_iter().next().unwrap() { Item::Trait(mut t) => { t.attrs.retain(|a| !a.path.is_ident("cglue_trait")); t } _ => unreachable!() } };
+            cglue_gen::forward::gen_forward(tr, None).to_string()
+        });
+        let exp = match out { Ok(e) => e, Err(_) => { println!("-7 # fails=generator_panicked"); continue; } };
+        let file = match syn::parse_file(&exp) { Ok(f) => f, Err(e) => { println!("-8 # fails=expansion_does_not_parse_{}", e.to_string().replace(' ', "_")); continue; } };
+        let im = file.items.iter().find_map(|i| if let Item::Impl(im) = i { if norm(&im.self_ty).contains("Fwd<CGlueO>") { Some(im) } else { None } } else { None });
+        let im = match im { Some(i) => i, None => { println!("-8 # fails=no_impl_for_Fwd"); continue; } };
+        let mut out_rows: Vec<Vec<i64>> = vec![];
+        for (k, r) in rows.iter().enumerate() {
+            let name = mname(k, r);
+            let m = im.items.iter().find_map(|ii| if let ImplItem::Method(m) = ii { if m.sig.ident == name { Some(m) } else { None } } else { None });
+            match m {
+                None => out_rows.push(vec![0]),
+                Some(m) => {
+                    let pnames: Vec<String> = m.sig.inputs.iter().skip(1).filter_map(|a| if let FnArg::Typed(p) = a { Some(norm(&p.pat)) } else { None }).collect();
+                    let (mut target, mut convs, mut tail, mut unknown) = (0, vec![], 9, 0);
+                    let stmts = &m.block.stmts;
+                    for (si, st) in stmts.iter().enumerate() {
+                        let s = norm(st);
+                        if s.starts_with(&format!("letret=(self.0).{}(", name)) {
+                            target = 1;
+                            if let Stmt::Local(l) = st { if let Some((_, e)) = &l.init { if let Expr::MethodCall(c) = &**e {
+                                for (ai, a) in c.args.iter().enumerate() { convs.push(conv_code(a, &pnames.get(ai).cloned().unwrap_or_default())); }
+                            } } }
+                        } else if si == stmts.len() - 1 { tail = if s == "ret" { 0 } else if s == "Self(ret)" { 1 } else { 9 }; }
+                        else { unknown = 1; }
+                    }
+                    let mut row = vec![1, target, convs.len() as i64];
+                    row.extend(convs.iter());
+                    row.extend([(convs.len() == pnames.len() && pnames.len() == r[4] as usize) as i64, tail, unknown]);
+                    out_rows.push(row);
+                }
+            }
+        }
+        let bounds = im.generics.params.iter().map(|p| norm(p)).collect::<Vec<_>>().join(",");
+        out_rows.push(vec![bounds.contains("DerefMut") as i64]);
+        println!("{} # fails=-", out_rows.iter().map(|r| r.iter().map(|v| v.to_string()).collect::<Vec<_>>().join(" ")).collect::<Vec<_>>().join(" ; "));
+    }
+}
+
 /// `gen render`: print the Rust source of the traits encoded by the case lines (trait k is named T<k>)
 pub fn run_render() {
     let stdin = std::io::stdin();
